@@ -1860,6 +1860,10 @@ fn run_scenario(r: &mut Report, args: &Args, scn: Scn) {
     let mut cfg = WorldCfg::new(&dir);
     if scn.seed % 3 == 0 { cfg.memory = Some(scn.seed) }
     if tc.valid { cfg.extra_toml = tc.toml() }
+    // every second world publishes its ROAs aggregated per AS number (one
+    // object for all prefixes of an origin): the renewal code has a path of
+    // its own for these
+    if scn.seed % 2 == 1 { cfg.aggregate = (1, 1) }
     let (testbed, ta_weeks) = (scn.testbed, scn.ta_weeks);
     let tweak = move |config: &mut Config| {
         if !tc.valid { tc.apply(config) }
